@@ -222,6 +222,18 @@ theorem ne_nil_of_normKey {ci : Bool} {a b u v : Str} (h : normKey ci a u = norm
     have := h.1; rw [ha] at this
     exact lower_nil_iff.mp this.symm
 
+/-- every message `_build_responses` produces realises an entry of the table for that target -/
+theorem response_entry {t : DevTree} (hw : WF t) (st : Str) {m : Msg} (hm : m ∈ buildResponses t st) :
+    ∃ e ∈ (expected t st).1, ExpOk e ∧ m.usn = e.usn ∧ m.st ≠ [] ∧
+      expKey (expected t st).2 e = msgKey (expected t st).2 m := by
+  have hperm := dispatch_perm hw st
+  have hkey : msgKey (expected t st).2 m ∈ (buildResponses t st).map (msgKey (expected t st).2) :=
+    List.mem_map.mpr ⟨m, hm, rfl⟩
+  obtain ⟨e, he, hek⟩ := List.mem_map.mp (hperm.mem_iff.mp hkey)
+  have heok := expected_ok hw st e he
+  obtain ⟨hst, husn⟩ := ne_nil_of_normKey (a := m.st) (u := m.usn) hek.symm heok.st
+  exact ⟨e, he, heok, husn, hst, hek⟩
+
 theorem okSearch_run {k : Consts} (hk : ConstsOk k) {t : DevTree} (hw : WF t) (cfg : Cfg)
     (hl : validLocation cfg.location = true) (target : Str) (searches : List SearchIn) (ann : Option AnnIn)
     (i : SearchIn) :
